@@ -1,3 +1,8 @@
 # edited as checks get built; consumed by tools/gen_manifest.py
-CHECKS = {}
+CHECKS = {
+ "C19": dict(engine="vsym", category="proof",
+   technique="symbolic execution of the rustc MIR of dora-symbol (path exploration, z3) over all valid UTF-8 names up to a byte bound; 128-bit FNV step lemmas by z3+cvc5",
+   text="Bounded proof over the real MIR of mangle_name / mangle_name_with_max_len / demangle_name / fnv1a_128: for EVERY valid UTF-8 name of length <= N bytes (quick N=3, thorough N=5) demangle(mangle(s)) == s and the symbol is dora_ + [A-Za-z0-9] / _XX escapes; for names straddling the length limit (small limits 34..46 symbolic and the production limit read from aot_compile.rs) the result is within the limit, unchanged when it fits, otherwise <prefix>_H<32 hex> and never readable as the unshortened symbol of another name; the FNV-1a loop body is injective in the state and in the byte (so equal-length names differing in one byte keep different hashes). Counterexamples are replayed on the natively compiled functions before being reported.",
+   note="Trusted: rustc's MIR dump, the vsym MIR interpreter and its std models (String/Vec/str/Option/format!, validated per run against the real functions on concrete inputs), z3 (cvc5 cross-check on the lemmas). Outside the claim: names longer than the bound, collision freedom of the 128-bit hash for arbitrary pairs, symbol sets of whole programs."),
+}
 NOT_APPLICABLE = {}
